@@ -17,6 +17,7 @@ open Pandora.C04
 #print axioms add_two_pow_eq_or
 #print axioms testBit_sub_two_pow
 #print axioms stepFlag_testBit
+#print axioms replacementOK_of_clear
 #print axioms stepOK_of_clear
 -- any pipeline
 #print axioms run_lt_4096
